@@ -227,7 +227,9 @@ def run_editfault(case):
                              "fault": {"at": min(at, len(ops)) if ops else 0, "kind": kind, "k": kk},
                              "status": status, "final": _classify(out, old, new), "encodable": encodable,
                              "entry": entry, "nops_ref": nops, "same": new == old, "init": []})
-                if kind in ("crash", "torncrash") and case.get("followup", True) and not case.get("meta_symlink"):
+                # (a follow-up edit needs a metafile to edit: if the interrupted run lost it, the record above says so)
+                if kind in ("crash", "torncrash") and case.get("followup", True) and not case.get("meta_symlink") \
+                        and os.path.isfile(out):
                     k += 1
                     recs.append(_followup(case, rid + k, out, sbx, run))
         return recs
